@@ -255,7 +255,7 @@ impl Property for C18 {
         vec!["templates are drawn at the origin (as the statement requires for the placement rule); symbols with variables inside <defs> are not generated (defs content is evaluated in place)".into()]
     }
     fn families(&self, tier: Tier) -> Vec<Family<Case>> {
-        vec![Family::random("reuse-vs-inlining", tier.n(6000, 150_000), fam_docs)]
+        vec![Family::random("reuse-vs-inlining", tier.n(24_000, 150_000), fam_docs)]
     }
     fn judge(&self, case: &Case, _strict: bool) -> Verdict {
         let (with_reuse, by_hand) = docs(case);
